@@ -164,6 +164,9 @@ type Provider struct {
 	GovAddr   string
 	Root      State
 	InitVals  []abci.ValidatorUpdate
+	// for the conformance replay through the full ABCI stack (tier2.go)
+	GenesisBytes []byte
+	Accts        []Acct // genesis accounts in account-number order
 }
 
 const acctFunds = int64(1_000_000_000_000)
@@ -202,6 +205,7 @@ func NewProvider(cfg ProviderCfg) (*Provider, error) {
 	var accounts []authtypes.GenesisAccount
 	var balances []banktypes.Balance
 	addAcct := func(a Acct) {
+		p.Accts = append(p.Accts, a)
 		accounts = append(accounts, authtypes.NewBaseAccount(a.Addr, a.Priv.PubKey(), uint64(len(accounts)), 0))
 		balances = append(balances, banktypes.Balance{Address: a.Addr.String(),
 			Coins: sdk.NewCoins(sdk.NewInt64Coin(BondDenom, acctFunds))})
@@ -291,6 +295,11 @@ func NewProvider(cfg ProviderCfg) (*Provider, error) {
 		return nil, err
 	}
 
+	p.GenesisBytes = stateBytes
+	if RecordNextProvider {
+		RecordNextProvider = false
+		p.Chain.Rec = &Recorder{Stores: Tier2Stores}
+	}
 	base := app.NewUncachedContext(false, WithHeader(sdk.Context{}, cfg.ChainID, 0, GenesisTime).BlockHeader())
 	ctx, _ := base.CacheContext()
 	ctx = WithHeader(ctx, cfg.ChainID, 0, GenesisTime)
